@@ -1,7 +1,7 @@
 (* C11 - for every operation history (the op type of Corr.v: every method of Set and OrderedMap) the representation
    invariant holds, so every refinement statement applies in every reachable state. *)
 From Coq Require Import NArith List Bool Lia.
-From Verif.C11_Set Require Import Model Refine SetBasics ArithCodec SetProofs Corr.
+From Verif.C11_Set Require Import Model Refine SetBasics ArithCodec SetProofs Corr Iter.
 Import ListNotations.
 Open Scope N_scope.
 
@@ -11,10 +11,31 @@ Proof.
   destruct (dec_u32 b) as [[k r]|]; simpl; auto. apply IHn. apply set_spec; auto.
 Qed.
 
+Lemma run_mop_inv o m : Inv o -> Inv (run_mop o m).
+Proof.
+  intros I. destruct m as [k v|k|]; cbn [run_mop].
+  - apply set_spec; auto.
+  - apply delete_spec; auto.
+  - apply clear_spec.
+Qed.
+
+Lemma run_mops_inv l : forall o, Inv o -> Inv (run_mops o l).
+Proof. unfold run_mops. induction l as [|m r IH]; simpl; auto. intros o I. apply IH, run_mop_inv, I. Qed.
+
+Lemma foreach_re_inv next sc : forall o cur, Inv o -> Inv (fst (fst (foreach_re next o cur sc))).
+Proof.
+  induction sc as [|[ops cont] rest IH]; intros o cur I; cbn [foreach_re fst]; auto.
+  destruct cur as [a|]; cbn [fst]; auto.
+  destruct (nth_error (mem o) a) as [n|]; cbn [fst]; auto.
+  destruct cont; cbn [fst]; [|apply run_mops_inv; auto].
+  specialize (IH (run_mops o ops) (ptr_of next (mem (run_mops o ops)) a) (run_mops_inv ops o I)).
+  destruct (foreach_re next (run_mops o ops) (ptr_of next (mem (run_mops o ops)) a) rest) as [[o2 vis] b]; exact IH.
+Qed.
+
 Theorem step_inv s o : Inv s -> Inv (fst (step s o)).
 Proof.
   intros Is.
-  destruct o as [e|e|e|l|l|a d|f|l| |l|l|l|p| |e| | | | |n| |b|k v|k|k| | |n|n| ]; cbn [step]; try exact Is.
+  destruct o as [e|e|e|l|l|a d|f|l| |l|l|l|p| |e| | | | |n| |b|k v|k|k| | |n|n| |rv sc|sc]; cbn [step]; try exact Is.
   - pose proof (add_spec s e Is) as H. destruct (s_add s e); cbn [fst] in *; tauto.
   - pose proof (del_spec s e Is) as H. destruct (s_delete s e); cbn [fst] in *; tauto.
   - pose proof (addall_diff s l Is) as H. destruct (s_addall s l); cbn [fst] in *; tauto.
@@ -31,6 +52,12 @@ Proof.
   - pose proof (delete_spec s k Is) as H. destruct (om_delete s k); cbn [fst] in *; tauto.
   - destruct (visit_until n (om_list s)); exact Is.
   - destruct (visit_until n (om_rlist s)); exact Is.
+  - destruct rv; [pose proof (foreach_re_inv nprev sc s (tail s) Is) as H; unfold om_foreachrev_re;
+                  destruct (foreach_re nprev s (tail s) sc) as [[? ?] ?]
+                 |pose proof (foreach_re_inv nnext sc s (head s) Is) as H; unfold om_foreach_re;
+                  destruct (foreach_re nnext s (head s) sc) as [[? ?] ?]]; exact H.
+  - pose proof (foreach_re_inv nnext sc s (head s) Is) as H. unfold om_foreach_re.
+    destruct (foreach_re nnext s (head s) sc) as [[? ?] ?]; exact H.
 Qed.
 
 Fixpoint run_ops (s : omap) (h : list op) : omap :=
@@ -48,4 +75,47 @@ Proof.
   assert (G : forall h s, Inv s -> Inv (run_ops s h)).
   { induction h0 as [|o r IH]; simpl; auto. intros s Is. apply IH. apply step_inv; auto. }
   apply G. apply empty_spec.
+Qed.
+
+(* the strong invariant of Iter.v (Inv + addresses grow along next in the whole store) also holds in every reachable state *)
+Theorem step_sinv s o : SInv s -> SInv (fst (step s o)).
+Proof.
+  intros Is.
+  destruct o as [e|e|e|l|l|a d|f|l| |l|l|l|p| |e| | | | |n| |b|k v|k|k| | |n|n| |rv sc|sc]; cbn [step]; try exact Is.
+  - pose proof (sinv_set s e 0 Is) as H. unfold s_add. destruct (om_set s e 0) as [s' [q|]]; exact H.
+  - pose proof (sinv_del s e Is) as H. unfold s_delete. destruct (om_delete s e); exact H.
+  - pose proof (sinv_addall l s om_empty Is) as H. unfold s_addall. destruct (fold_left addall_step l (s, om_empty)); exact H.
+  - pose proof (sinv_deleteall l s om_empty Is) as H. unfold s_deleteall. destruct (fold_left deleteall_step l (s, om_empty)); exact H.
+  - pose proof (sinv_apply s a d Is) as H. destruct (s_apply s a d) as [[? ?] ?]; exact H.
+  - unfold s_compute. destruct (f (s_toslice s)) as [a d].
+    pose proof (sinv_apply s a d Is) as H. destruct (s_apply s a d) as [[? ?] ?]; exact H.
+  - unfold s_replace. cbn [fst]. apply sinv_fold_set. apply sinv_clear; auto.
+  - apply sinv_clear; auto.
+  - destruct (visit_until n (s_toslice s)); exact Is.
+  - unfold s_decode. destruct (dec_u32 b) as [[n r]|]; cbn [fst]; auto.
+    pose proof (sinv_dec_entries (N.to_nat n) s r 4%nat Is) as H. destruct (dec_entries s (N.to_nat n) r 4); auto.
+  - pose proof (sinv_set s k v Is) as H. destruct (om_set s k v); exact H.
+  - pose proof (sinv_del s k Is) as H. destruct (om_delete s k); exact H.
+  - destruct (visit_until n (om_list s)); exact Is.
+  - destruct (visit_until n (om_rlist s)); exact Is.
+  - destruct rv; [pose proof (sinv_foreach_re nprev sc s (tail s) Is) as H; unfold om_foreachrev_re;
+                  destruct (foreach_re nprev s (tail s) sc) as [[? ?] ?]
+                 |pose proof (sinv_foreach_re nnext sc s (head s) Is) as H; unfold om_foreach_re;
+                  destruct (foreach_re nnext s (head s) sc) as [[? ?] ?]]; exact H.
+  - pose proof (sinv_foreach_re nnext sc s (head s) Is) as H. unfold om_foreach_re.
+    destruct (foreach_re nnext s (head s) sc) as [[? ?] ?]; exact H.
+Qed.
+
+Theorem reachable_sinv init h : SInv (run_ops (s_new init) h).
+Proof.
+  assert (G : forall h s, SInv s -> SInv (run_ops s h)).
+  { induction h0 as [|o r IH]; simpl; auto. intros s Is. apply IH. apply step_sinv; auto. }
+  apply G. unfold s_new. apply sinv_fold_set. apply sinv_empty.
+Qed.
+
+Theorem reachable_map_sinv h : SInv (run_ops om_empty h).
+Proof.
+  assert (G : forall h s, SInv s -> SInv (run_ops s h)).
+  { induction h0 as [|o r IH]; simpl; auto. intros s Is. apply IH. apply step_sinv; auto. }
+  apply G. apply sinv_empty.
 Qed.
